@@ -449,4 +449,257 @@ theorem parseTextBlock_coverAll (hw : WFI off w ts) (h : GE (CovQ cs K ts s.cur)
   rintro _ s2 ⟨g2, c2⟩
   exact Sat.pushEv ⟨g2.push (g2.evs.push _), c2⟩
 
+/-! ### section and metadata lines: what the returned event covers -/
+
+/-- all content tokens of the block lie inside the source span of the event -/
+def EvCovers (cs : CharSpec) (ts : List Tok) (ev : Ev α) : Prop :=
+  ∀ (i : Nat) (t : Tok), ts[i]? = some t → Wordy cs t →
+    ∃ sp, ev.srcSpan = some sp ∧ sp.start ≤ tokBodyStart t ∧ t.stop ≤ sp.stop
+
+/-- `section`: when a section event is returned (no `section-invalid` warning), every content token
+    of the line is in the name, the name is not blank, and its span covers the token -/
+theorem sectionP_coverAll (hw : WFI off w ts) (h : G ts e s) (h0 : s.cur = 0) (hcs : s.cs = cs) :
+    Sat (sectionP (α := α)) s (fun r _ => ∀ ev, r = some ev → EvCovers cs ts ev) := by
+  unfold sectionP
+  refine Sat.bind (Sat.mono ((consumeK_sat _ h).withCs (consumeK_indA _)) ?_)
+  rintro r1 s1 ⟨⟨g1, h1⟩, cs1⟩
+  cases r1 with
+  | none => exact Sat.pure (fun ev hev => by cases hev)
+  | some m =>
+    obtain ⟨hm, hmk, c1⟩ := h1
+    refine Sat.bind (Sat.mono ((consumeWhile_sat _ g1).withCs (consumeWhile_indA _)) ?_)
+    rintro eq1 s2 ⟨⟨g2, c2, he1, hall1, -⟩, cs2⟩
+    refine Sat.bind (currentOffset_sat g2 ?_)
+    refine Sat.bind (Sat.mono ((consumeWhile_sat _ g2).withCs (consumeWhile_indA _)) ?_)
+    rintro nameT s3 ⟨⟨g3, c3, hn, -, -⟩, cs3⟩
+    have hr : RunAt (offAt ts s2.cur) nameT := by rw [hn]; exact slice_runAt hw.wf.run c3
+    refine Sat.bind (bpText_sat hr ?_)
+    refine Sat.bind (Sat.mono ((consumeWhile_sat _ g3).withCs (consumeWhile_indA _)) ?_)
+    rintro eq2 s4 ⟨⟨g4, c4, he2, hall2, -⟩, cs4⟩
+    unfold wsComments
+    refine Sat.bind (Sat.mono ((consumeWhile_sat _ g4).withCs (consumeWhile_indA _)) ?_)
+    rintro wsT s5 ⟨⟨g5, c5, he3, hall3, -⟩, cs5⟩
+    refine Sat.bind (restToks_sat g5 ?_)
+    split
+    · refine Sat.bind (Sat.pwarnE ?_)
+      exact Sat.pure (fun ev hev => by cases hev)
+    · rename_i hemp
+      refine Sat.bind (Sat.get ?_)
+      have hlen := drop_isEmpty_true (ts := ts) (c := s5.cur) (by simpa using hemp)
+      have hcs5 : s5.cs = cs := by rw [cs5, cs4, cs3, cs2, cs1, hcs]
+      refine Sat.pure ?_
+      intro ev hev i t ht hct
+      simp only [Option.some.injEq] at hev
+      subst hev
+      have hi : i < ts.length := getElem?_lt ht
+      by_cases a0 : i < s1.cur
+      · exfalso
+        have : i = s.cur := by omega
+        subst this
+        rw [hm] at ht
+        simp only [Option.some.injEq] at ht
+        subst ht
+        exact hct.2.2.2.2.1 hmk
+      by_cases a1 : i < s2.cur
+      · exfalso
+        have := hall1 t (by rw [he1]; exact cover_mem_slice (by omega) a1 ht)
+        exact hct.2.2.2.2.1 (by simpa using this)
+      by_cases a2 : i < s3.cur
+      · obtain ⟨-, m2, m3, m4⟩ := textRun_cover hw.wf c3 (by omega) a2 ht hct
+        have hne : (buildText (offAt ts s2.cur) nameT).isTextEmpty s5.cs = false := by
+          rw [hcs5, hn]; exact m2
+        refine ⟨(buildText (offAt ts s2.cur) nameT).span, ?_, ?_, ?_⟩
+        · simp only [hne, Bool.false_eq_true, if_false, Ev.srcSpan]
+        · rw [hn]; exact m3
+        · rw [hn]; exact m4
+      by_cases a3 : i < s4.cur
+      · exfalso
+        have := hall2 t (by rw [he2]; exact cover_mem_slice (by omega) a3 ht)
+        exact hct.2.2.2.2.1 (by simpa using this)
+      · exfalso
+        have := hall3 t (by rw [he3]; exact cover_mem_slice (by omega) (by omega) ht)
+        rw [hct.notWsComment] at this; cases this
+
+/-- `metadata_entry`: when an entry is returned, the span `key.start .. value.end` covers every
+    content token of the line (everything but the `>>`) -/
+theorem metadataEntry_coverAll (hw : WFI off w ts) (h : G ts e s) (h0 : s.cur = 0) :
+    Sat (metadataEntry (α := α)) s (fun r _ => ∀ ev, r = some ev → EvCovers cs ts ev) := by
+  unfold metadataEntry
+  refine Sat.bind (Sat.mono (consumeK_sat _ h) ?_)
+  rintro r1 s1 ⟨g1, h1⟩
+  cases r1 with
+  | none => exact Sat.pure (fun ev hev => by cases hev)
+  | some m =>
+    obtain ⟨hm, hmk, c1⟩ := h1
+    refine Sat.bind (currentOffset_sat g1 ?_)
+    refine Sat.bind (Sat.mono (untilK_sat _ g1) ?_)
+    rintro r2 s2 ⟨g2, h2⟩
+    cases r2 with
+    | none =>
+      unfold bpSpan
+      refine Sat.bind (Sat.bind (Sat.get ?_))
+      refine tokensSpanP_sat (by rw [g2.toks]; exact hw.ne) ?_
+      refine Sat.bind (Sat.pwarnE ?_)
+      exact Sat.pure (fun ev hev => by cases hev)
+    | some keyT =>
+      obtain ⟨c2, hkey, ⟨c, hcl, hck⟩, -⟩ := h2
+      have hr : RunIn off w (offAt ts s1.cur) keyT := by rw [hkey]; exact hw.slice c2
+      refine Sat.bind (bpText_sat hr.run ?_)
+      refine Sat.bind (Sat.mono (bump_sat g2 hcl (by simpa using hck)) ?_)
+      rintro _ s3 ⟨-, g3, c3⟩
+      refine Sat.bind (currentOffset_sat g3 ?_)
+      refine Sat.bind (Sat.mono (consumeRest_sat g3) ?_)
+      rintro valT s4 ⟨g4, c4, hv⟩
+      have hr2 : RunIn off w (offAt ts s3.cur) valT := by rw [hv]; exact hw.slice g3.le
+      refine Sat.bind (bpText_sat hr2.run ?_)
+      refine Sat.bind (Sat.get ?_)
+      dsimp only
+      have key : EvCovers cs ts (Ev.metadata (α := α) (buildText (offAt ts s1.cur) keyT)
+          (buildText (offAt ts s3.cur) valT)) := by
+        intro i t ht hct
+        have hrg := hr.text_range
+        have hrg2 := hr2.text_range
+        have e1 : lastStop (offAt ts s1.cur) keyT = offAt ts s2.cur := by rw [hkey]; exact offAt_slice c2
+        rw [e1] at hrg
+        have hks : (buildText (offAt ts s1.cur) keyT).span.start ≤ (buildText (offAt ts s1.cur) keyT).span.stop :=
+          hr.text.1.2.2
+        have hvs : (buildText (offAt ts s3.cur) valT).span.start ≤ (buildText (offAt ts s3.cur) valT).span.stop :=
+          hr2.text.1.2.2
+        have hmono := hw.offAt_mono (show s2.cur ≤ s3.cur by omega)
+        have hi : i < ts.length := getElem?_lt ht
+        refine ⟨⟨_, _⟩, rfl, ?_, ?_⟩
+        · show (buildText (offAt ts s1.cur) keyT).span.start ≤ tokBodyStart t
+          by_cases a0 : i < s1.cur
+          · exfalso
+            have : i = s.cur := by omega
+            subst this
+            rw [hm] at ht
+            simp only [Option.some.injEq] at ht
+            subst ht
+            exact hct.2.2.2.1 hmk
+          by_cases a1 : i < s2.cur
+          · obtain ⟨-, -, m3, -⟩ := textRun_cover hw.wf c2 (by omega) a1 ht hct
+            rw [hkey]; exact m3
+          · have := (hw.tokAt ht).1
+            have := hw.offAt_mono (show s2.cur ≤ i by omega)
+            have := tokBodyStart_ge t
+            omega
+        · show t.stop ≤ (buildText (offAt ts s3.cur) valT).span.stop
+          by_cases a1 : i < s3.cur
+          · have := (hw.tokAt ht).2
+            have := hw.offAt_mono (show i + 1 ≤ s3.cur by omega)
+            omega
+          · obtain ⟨-, -, -, m4⟩ := textRun_cover hw.wf g3.le (by omega) hi ht hct
+            rw [hv]; exact m4
+      have fin : ∀ s' : BP α, Sat (pure (some (Ev.metadata (α := α) (buildText (offAt ts s1.cur) keyT)
+          (buildText (offAt ts s3.cur) valT))) : P α (Option (Ev α))) s'
+          (fun r _ => ∀ ev, r = some ev → EvCovers cs ts ev) := by
+        intro s'
+        refine Sat.pure ?_
+        intro ev hev
+        simp only [Option.some.injEq] at hev
+        subst hev
+        exact key
+      split
+      · refine Sat.bind (Sat.perrE ?_)
+        exact fin _
+      · split
+        · refine Sat.bind (Sat.pwarnE ?_)
+          exact fin _
+        · exact fin _
+
+/-! ### blocks -/
+
+theorem parseMultilineBlock_coverAll (hw : WFI off w ts) (hz : Boundary off w 0)
+    (h : GE (CovQ cs K ts s.cur) ts e s) (hcs : s.cs = cs) :
+    Sat (parseMultilineBlock (α := α)) s
+      (fun _ s' => GE (CovQ cs K ts ts.length) ts e s' ∧ s'.cur = ts.length) := by
+  unfold parseMultilineBlock
+  refine Sat.bind (allToks_sat h.g ?_)
+  split
+  · rename_i hall
+    refine Sat.bind (Sat.mono (consumeRest_ge h) ?_)
+    rintro _ s1 ⟨g1, c1, -⟩
+    refine Sat.pure ⟨g1.adv ?_, c1⟩
+    intro i _ _ t ht hct
+    rw [List.all_eq_true] at hall
+    have := hall t (List.mem_of_getElem? ht)
+    rw [hct.notEmptyTok] at this; cases this
+  · refine Sat.bind (peekK_sat h.g ?_)
+    split
+    · exact parseTextBlock_coverAll hw h hcs
+    · exact parseStep_coverAll hw hz h
+
+theorem parseBlock_coverAll (oldStyle : Bool) (hw : WFI off w ts) (hz : Boundary off w 0)
+    (h : GE (CovQ cs K ts 0) ts e s) (h0 : s.cur = 0) (hcs : s.cs = cs) :
+    Sat (parseBlock (α := α) oldStyle) s
+      (fun _ s' => GE (CovQ cs K ts ts.length) ts e s' ∧ s'.cur = ts.length) := by
+  have hc : Ctx off w (CovQ (α := α) cs K ts 0) ts := covCtx hw 0
+  unfold parseBlock
+  apply Sat.bind
+  apply Sat.mono (Q := fun r s' => GE (CovQ cs K ts 0) ts e s' ∧ s'.cs = cs ∧
+    match r with
+    | none => s'.cur = 0
+    | some ev => s'.cur = ts.length ∧ EvCovers cs ts ev)
+  · refine Sat.bind (peekK_sat h.g ?_)
+    split
+    · apply withRecover_sat
+      refine Sat.bind (Sat.mono (((metadataEntry_ev hc h).and
+        (metadataEntry_coverAll (cs := cs) hw h.g h0)).withCs metadataEntry_indA) ?_)
+      rintro r1 s1 ⟨⟨⟨g1, h1, -⟩, hcv⟩, cs1⟩
+      have hcs1 : s1.cs = cs := by rw [cs1, hcs]
+      split
+      · refine Sat.bind (Sat.get ?_)
+        refine Sat.bind (hasExt_sat g1.g ?_)
+        split
+        · exact Sat.pure ⟨g1, hcs1, h1 rfl, hcv _ rfl⟩
+        · exact Sat.pure ⟨g1.setCur h.le, hcs1, h0⟩
+      · exact Sat.pure ⟨g1.setCur h.le, hcs1, h0⟩
+    · apply withRecover_sat
+      refine Sat.mono (((sectionP_ev hc h).and
+        (sectionP_coverAll (cs := cs) hw h.g h0 hcs)).withCs sectionP_indA) ?_
+      rintro r1 s1 ⟨⟨⟨g1, h1, -⟩, hcv⟩, cs1⟩
+      have hcs1 : s1.cs = cs := by rw [cs1, hcs]
+      cases r1 with
+      | none => exact ⟨g1.setCur h.le, hcs1, h0⟩
+      | some ev => exact ⟨g1, hcs1, h1 rfl, hcv ev rfl⟩
+    · exact Sat.pure ⟨h, hcs, h0⟩
+  rintro r s1 ⟨g1, cs1, h1⟩
+  cases r with
+  | some ev =>
+    obtain ⟨c1, hcv⟩ := h1
+    exact Sat.pushEv ⟨g1.push (g1.evs.pushCover ev (fun i _ _ t ht hct => hcv i t ht hct)), c1⟩
+  | none =>
+    dsimp only at h1
+    exact parseMultilineBlock_coverAll hw hz (by rw [h1]; exact g1) cs1
+
+/-- **one block, any shape**: what was covered stays covered, and every content token of the block
+    is covered afterwards -/
+theorem runBlock_coverAll (cs : CharSpec) (ext : Ext) (oldStyle : Bool) (blk : List Tok) (evs : Array (Ev α))
+    (hw : WFI off w blk) (hz : Boundary off w 0) (hK : ∀ t, K t → CoveredBy evs t) :
+    (∀ t, K t → CoveredBy (runBlock cs ext oldStyle blk evs none).1 t) ∧
+    ∀ t ∈ blk, Wordy cs t → CoveredBy (runBlock cs ext oldStyle blk evs none).1 t := by
+  have g0 : GE (CovQ cs K blk 0) blk ext (⟨blk, 0, ext, cs, evs, none⟩ : BP α) :=
+    ⟨⟨rfl, rfl, rfl, Nat.zero_le _⟩, hK, fun i hi => absurd hi (Nat.not_lt_zero _)⟩
+  have hne : blk.isEmpty = false := by
+    have := hw.ne
+    cases blk <;> simp_all
+  have key : Sat (do
+      if blk.isEmpty then panicWith "BlockParser::new: empty tokens"
+      parseBlock (α := α) oldStyle
+      let s ← get
+      if s.cur ≠ s.toks.length then panicWith "Block tokens not parsed") ⟨blk, 0, ext, cs, evs, none⟩
+      (fun _ s' => CovQ cs K blk blk.length s'.evs) := by
+    simp only [hne, Bool.false_eq_true, if_false]
+    refine Sat.bind (Sat.mono (parseBlock_coverAll oldStyle hw hz g0 rfl rfl) ?_)
+    rintro _ s1 ⟨g1, c1⟩
+    refine Sat.bind (Sat.get ?_)
+    have : s1.cur = s1.toks.length := by rw [g1.g.toks]; exact c1
+    simp only [this, ne_eq, not_true_eq_false, if_false]
+    exact Sat.pure g1.evs
+  have key' : CovQ cs K blk blk.length (runBlock cs ext oldStyle blk evs none).1 := key
+  refine ⟨key'.1, fun t ht hct => ?_⟩
+  obtain ⟨i, hi, hget⟩ := List.mem_iff_getElem.1 ht
+  exact key'.2 i hi t (by rw [List.getElem?_eq_getElem hi, hget]) hct
+
 end Cook
